@@ -178,9 +178,11 @@ PROPS = {
     },
     "C06": {
         "lean_modules": ["TableauVerif.Props.C06"],
-        "oracles": ["c06.rt"],
+        "oracles": ["c06.rt", "c06.cell"],
         "streams": [
             ("e2e.C06.formats", 3000, 100000),
+            # cells at the edges of the Timestamp range: the three files of a worksheet are written together or not at all
+            ("e2e.C06.boundary", 200, 6000),
             ("corr.xproto.squeeze", 70000, 600000),
             ("corr.store.emitTimestamp", 10000, 300000),
         ],
@@ -234,9 +236,11 @@ PROPS = {
     },
     "C01": {
         "lean_modules": ["TableauVerif.Props.C01", "TableauVerif.Props.C01List", "TableauVerif.Props.C01Sheet", "TableauVerif.Props.C01Grid", "TableauVerif.Props.C01Csv"],
-        "oracles": ["c01.rt", "imp.grid"],
+        "oracles": ["c01.rt", "imp.grid", "c03.parse"],
         "streams": [
             ("e2e.C01.roundtrip", 8000, 300000),
+            # the scalar layer on arbitrary cell texts: the value stored for a cell is the one its text states
+            ("corr.xproto.parseFieldValue", 40000, 800000),
             ("corr.confgen.tableParse", 6000, 200000),
             ("corr.importer.grid", 3000, 100000),
             ("corr.importer.csvText", 8000, 400000),
